@@ -469,6 +469,108 @@ def path_facts(p: "Path") -> Dict[str, bool]:
     return f
 
 
+# functions the rules treat as atoms (their vocabulary): never inlined by the path engine
+VOCABULARY = {
+    "quantize_activation", "quantize_weight", "group", "ungroup", "absmax_scale", "dtype_info", "is_scalar", "cannot_mm", "qfallback",
+    "pack_weights", "quantize_module", "set_module_by_name", "axis_to_dim", "get_qbytestensor_op_dispatch", "get_qbitstensor_op_dispatch",
+    "get_qtensor_func", "pack", "unpack", "pack_v2", "unpack_v2", "reverse_awq_order", "quantize", "freeze", "requantize", "qbytes_mm",
+    "qbytes_int_mm", "qbytes_int8pack_mm", "safe_save", "safe_load", "define", "register_qmodule", "register_qbytestensor_op",
+    "register_qbitstensor_op", "register_qtensor_func", "disable_extensions",
+}
+KEEP_METHODS = {"_save_to_state_dict", "_load_from_state_dict", "_conv_forward", "_make_wrapper_subclass", "_int_mm", "_weight_int8pack_mm"}
+
+
+def _replace_node(root: ast.AST, old: ast.AST, new: ast.AST) -> ast.AST:
+    if root is old:
+        return copy.deepcopy(new)
+
+    class R(ast.NodeTransformer):
+        def visit(self, node):
+            if node is old:
+                return copy.deepcopy(new)
+            return super().visit(node)
+
+    return R().visit(root)
+
+
+class InlineCtx:
+    """Resolution context of one module for the path engine's inliner."""
+
+    def __init__(self, repo: "Repo", mi: ModuleInfo, cls: Optional[ClassInfo] = None):
+        self.repo, self.mi, self.cls = repo, mi, cls
+        self.module_functions = True
+
+    def for_module(self, mi: ModuleInfo) -> "InlineCtx":
+        if mi is self.mi:
+            return self
+        c = InlineCtx(self.repo, mi, None)
+        c.module_functions = self.module_functions
+        return c
+
+    def resolve_constants(self, e: ast.AST, fn, p: "Path") -> ast.AST:
+        mi = self.mi
+        local = set(params_of(fn)) | set(p.env) | set(p.closures)
+
+        class C(ast.NodeTransformer):
+            def visit_Name(self, node):
+                if isinstance(node.ctx, ast.Load) and node.id not in local and node.id.isupper() or (isinstance(node.ctx, ast.Load) and node.id not in local and node.id.startswith("_") and node.id[1:2].isupper()):
+                    v = mi.defs.get(node.id)
+                    if isinstance(v, ast.Constant) and isinstance(v.value, (int, float, str)) and not isinstance(v.value, bool):
+                        return ast.copy_location(ast.Constant(value=v.value), node)
+                return node
+
+        return C().visit(e)
+
+    def first_inlinable(self, e: ast.AST, pe: "PathEnum", p: "Path"):
+        """innermost call that resolves to a package helper outside the vocabulary: (node, fn, bound env, module)"""
+        for node in _postorder(e):
+            if not isinstance(node, ast.Call):
+                continue
+            f = node.func
+            hfn, hmi, skip, closure_env = None, self.mi, 0, None
+            if isinstance(f, ast.Name):
+                if f.id in VOCABULARY:
+                    continue
+                if f.id in p.closures:
+                    hfn, closure_env = p.closures[f.id]
+                elif not self.module_functions:
+                    continue
+                else:
+                    r = self.repo.resolve(self.mi, f.id)
+                    if r is not None and isinstance(r[1], ast.FunctionDef) and r[0].rel.startswith("optimum/"):
+                        hmi, hfn = r
+                if hfn is not None and hfn.decorator_list:
+                    hfn = None
+            elif isinstance(f, ast.Attribute) and isinstance(f.value, ast.Name) and f.value.id in ("self", "cls") and self.cls is not None:
+                if f.attr.startswith("_") and not f.attr.startswith("__") and f.attr not in KEEP_METHODS:
+                    m = self.repo.method(self.cls, f.attr)
+                    if m is not None and not any(U(d) in ("property",) for d in m[1].decorator_list):
+                        hfn, hmi = m[1], m[0].mod
+                        skip = 0 if any(U(d) == "staticmethod" for d in m[1].decorator_list) else 1
+            if hfn is None or id(hfn) in pe._stack:
+                continue
+            if any(isinstance(n, (ast.Yield, ast.YieldFrom)) for n in ast.walk(hfn)):
+                continue
+            env = bind_call(hfn, node, skip_first=skip)
+            if env is None:
+                continue
+            if skip:
+                env[positional_params(hfn)[0]] = copy.deepcopy(f.value)
+            if closure_env:
+                for k, v in closure_env.items():
+                    env.setdefault(k, v)
+            return node, hfn, env, hmi
+        return None
+
+
+def _postorder(e: ast.AST):
+    for c in ast.iter_child_nodes(e):
+        if isinstance(c, (ast.Lambda, ast.ListComp, ast.SetComp, ast.DictComp, ast.GeneratorExp)):
+            continue
+        yield from _postorder(c)
+    yield e
+
+
 class PathEnum:
     """Enumerates acyclic paths of one function with local substitution.
 
@@ -478,11 +580,14 @@ class PathEnum:
 
     MAX_PATHS = 4000
 
-    def __init__(self, fn: ast.FunctionDef, bind: Optional[dict] = None):
+    def __init__(self, fn: ast.FunctionDef, bind: Optional[dict] = None, ctx: Optional["InlineCtx"] = None, depth: int = 3):
         self.fn = fn
         self.bind = bind or {}
         self.out: List[Path] = []
         self._loops: List[List[Path]] = []
+        self.ctx = ctx
+        self.depth = depth
+        self._stack: List[int] = [id(fn)]
 
     def run(self) -> List[Path]:
         p = Path()
@@ -512,7 +617,8 @@ class PathEnum:
 
     def stmt(self, st, p: Path) -> List[Path]:
         if isinstance(st, ast.Return):
-            self.finish(p, "return", subst(st.value, p.env), st.lineno)
+            for val, q in self.sx(st.value, p, st):
+                self.finish(q, "return", val, st.lineno)
             return []
         if isinstance(st, ast.Raise):
             self.finish(p, "raise", subst(st.exc, p.env), st.lineno)
@@ -526,14 +632,20 @@ class PathEnum:
                 self.out.append(p)
             return []
         if isinstance(st, ast.Assign):
-            val = subst(st.value, p.env)
-            for tgt in st.targets:
-                self.assign(tgt, val, p, st)
-            return [p]
+            out = []
+            for val, q in self.sx(st.value, p, st):
+                for tgt in st.targets:
+                    self.assign(tgt, val, q, st)
+                out.append(q)
+            return out
         if isinstance(st, ast.AnnAssign):
-            if st.value is not None:
-                self.assign(st.target, subst(st.value, p.env), p, st)
-            return [p]
+            if st.value is None:
+                return [p]
+            out = []
+            for val, q in self.sx(st.value, p, st):
+                self.assign(st.target, val, q, st)
+                out.append(q)
+            return out
         if isinstance(st, ast.AugAssign):
             if isinstance(st.target, ast.Name):
                 cur = p.env.get(st.target.id, ast.Name(id=st.target.id, ctx=ast.Load()))
@@ -544,18 +656,29 @@ class PathEnum:
                 p.effects.append(("augstore", tgt, st.op, subst(st.value, p.env), st.lineno, p.in_loop))
             return [p]
         if isinstance(st, ast.If):
-            c = subst(st.test, p.env)
-            pt, pf = p, p.clone()
-            pt.conds.append((c, True, st.lineno))
-            pf.conds.append((c, False, st.lineno))
-            return self.block(st.body, [pt]) + self.block(st.orelse, [pf])
+            out = []
+            for c, q in self.sx(st.test, p, st):
+                pt, pf = q, q.clone()
+                pt.conds.append((c, True, st.lineno))
+                pf.conds.append((copy.deepcopy(c), False, st.lineno))
+                out.extend(self.block(st.body, [pt]) + self.block(st.orelse, [pf]))
+            return out
         if isinstance(st, ast.Expr):
-            p.effects.append(("expr", subst(st.value, p.env), st.lineno, p.in_loop))
-            return [p]
+            out = []
+            for val, q in self.sx(st.value, p, st):
+                if isinstance(val, ast.Constant):
+                    out.append(q)
+                    continue
+                q.effects.append(("expr", val, st.lineno, q.in_loop))
+                out.append(q)
+            return out
         if isinstance(st, ast.Assert):
-            p.conds.append((subst(st.test, p.env), True, st.lineno))
-            p.effects.append(("assert", subst(st.test, p.env), st.lineno, p.in_loop))
-            return [p]
+            out = []
+            for c, q in self.sx(st.test, p, st):
+                q.conds.append((c, True, st.lineno))
+                q.effects.append(("assert", copy.deepcopy(c), st.lineno, q.in_loop))
+                out.append(q)
+            return out
         if isinstance(st, (ast.Pass, ast.Import, ast.ImportFrom, ast.Nonlocal)):
             return [p]
         if isinstance(st, ast.Global):
@@ -647,6 +770,44 @@ class PathEnum:
             live = self.block(st.orelse, live)
         return live
 
+    # -- substitution + inlining of package helpers ---------------------------------------------
+    def sx(self, expr, p: Path, st) -> List[Tuple[ast.AST, Path]]:
+        """Substitute locals, resolve module constants, and inline calls to package helpers that are not part of the
+        rules' vocabulary.  A helper with several paths forks the caller's path; a raising helper path ends it."""
+        if expr is None:
+            return [(None, p)]
+        e = subst(expr, p.env)
+        if self.ctx is None or self.depth <= 0:
+            return [(e, p)]
+        e = self.ctx.resolve_constants(e, self.fn, p)
+        results = [(e, p)]
+        for _ in range(6):  # a few inlinable calls per statement at most
+            nxt, changed = [], False
+            for ex, q in results:
+                call = self.ctx.first_inlinable(ex, self, q)
+                if call is None:
+                    nxt.append((ex, q))
+                    continue
+                changed = True
+                node, hfn, henv, hmi = call
+                sub = PathEnum(hfn, henv, ctx=self.ctx.for_module(hmi), depth=self.depth - 1)
+                sub._stack = self._stack + [id(hfn)]
+                for hp in sub.run():
+                    if not path_feasible(hp):
+                        continue
+                    q2 = q.clone()
+                    q2.conds.extend(hp.conds)
+                    q2.effects.extend(hp.effects)
+                    if hp.end[0] == "raise":
+                        self.finish(q2, "raise", hp.end[1], hp.end[2])
+                        continue
+                    ret = hp.end[1] if hp.end[0] == "return" and hp.end[1] is not None else ast.Constant(value=None)
+                    nxt.append((_replace_node(ex, node, ret), q2))
+            results = nxt
+            if not changed:
+                break
+        return results
+
     def assign(self, tgt, val, p: Path, st):
         if isinstance(tgt, ast.Name):
             p.env[tgt.id] = val
@@ -715,6 +876,7 @@ def path_feasible(p: "Path") -> bool:
 
 ACTIVE_REPO: Optional["Repo"] = None
 _MODULE_OF: Dict[int, ModuleInfo] = {}
+_CLASS_OF: Dict[int, ClassInfo] = {}
 
 
 def set_active_repo(repo: "Repo"):
@@ -722,10 +884,16 @@ def set_active_repo(repo: "Repo"):
     global ACTIVE_REPO
     ACTIVE_REPO = repo
     _MODULE_OF.clear()
+    _CLASS_OF.clear()
     for mi in repo.modules.values():
         for n in ast.walk(mi.tree):
             if isinstance(n, (ast.FunctionDef, ast.AsyncFunctionDef)):
                 _MODULE_OF[id(n)] = mi
+    for lst in repo.classes.values():
+        for ci in lst:
+            for n in ast.walk(ci.node):
+                if isinstance(n, (ast.FunctionDef, ast.AsyncFunctionDef)):
+                    _CLASS_OF.setdefault(id(n), ci)
 
 
 class _Qualify(ast.NodeTransformer):
@@ -760,9 +928,15 @@ def _qualify_path(p: Path, q: "_Qualify"):
     p.ctx = [tuple(fx(x) for x in c) for c in p.ctx]
 
 
-def paths_of(fn: ast.FunctionDef, bind: Optional[dict] = None, prune: bool = True) -> List[Path]:
-    ps = PathEnum(fn, bind).run()
+def paths_of(fn: ast.FunctionDef, bind: Optional[dict] = None, prune: bool = True, inline_helpers=True) -> List[Path]:
+    """inline_helpers: True (closures, private methods, module-level helpers outside the vocabulary), "methods" (closures and
+    private methods only), False (nothing)."""
     mi = _MODULE_OF.get(id(fn))
+    ctx = None
+    if inline_helpers and ACTIVE_REPO is not None and mi is not None:
+        ctx = InlineCtx(ACTIVE_REPO, mi, _CLASS_OF.get(id(fn)))
+        ctx.module_functions = inline_helpers is True
+    ps = PathEnum(fn, bind, ctx=ctx).run()
     if ACTIVE_REPO is not None and mi is not None:
         local = set(params_of(fn)) | _bound_names(fn.body)
         q = _Qualify(ACTIVE_REPO, mi, local)
